@@ -557,17 +557,34 @@ func (p *c09prop) Run(c *core.Case, st *core.Stats) []core.Violation {
 			return []core.Violation{core.V(c, "invert-wrong", "InvertSA: sainv[sa[%d]=%d]=%d for %s", i, s, inv[s], desc())}
 		}
 	}
-	for mode := 0; mode < 3; mode++ {
+	for mode := 0; mode < 5; mode++ {
+		if mode >= 3 && c.Idx%3 != 0 {
+			break
+		}
 		lcp := make([]int32, n)
 		for i := range lcp {
 			lcp[i] = -77
 		}
 		var a, b []int32
+		garbage := func(l, c int) []int32 {
+			g := make([]int32, c)
+			for i := range g {
+				g[i] = int32(i*31 + 7)
+			}
+			return g[:l]
+		}
 		switch mode {
 		case 0:
 			a, b = append([]int32(nil), sa...), append([]int32(nil), inv...)
 		case 1:
 			a = append([]int32(nil), sa...)
+		case 3:
+			// slices of another length count as not supplied, whatever
+			// their capacity holds (a workspace resliced to length 0, the
+			// buffers of an earlier, longer text)
+			a, b = append([]int32(nil), sa...), garbage(0, n+5)
+		case 4:
+			a, b = garbage(n+1, n+9), garbage(n/2, n+3)
 		}
 		if pv := call(func() { suffix.LCP(t, a, b, lcp) }); pv != nil {
 			return []core.Violation{core.V(c, "lcp-panic", "suffix.LCP (mode %d) panics for %s: %v", mode, desc(), pv)}
@@ -577,7 +594,7 @@ func (p *c09prop) Run(c *core.Case, st *core.Stats) []core.Violation {
 		}
 		for i := 1; i < n; i++ {
 			if lcp[i] != want[i] {
-				return []core.Violation{core.V(c, "lcp-wrong", "suffix.LCP (mode %d: 0 sa+sainv supplied, 1 sa only, 2 none) lcp[%d]=%d, want %d for %s", mode, i, lcp[i], want[i], desc())}
+				return []core.Violation{core.V(c, "lcp-wrong", "suffix.LCP (mode %d: 0 sa+sainv supplied, 1 sa only, 2 none, 3 sainv of length 0 with capacity, 4 sa and sainv of other lengths) lcp[%d]=%d, want %d for %s", mode, i, lcp[i], want[i], desc())}
 			}
 		}
 		if !bytes.Equal(t, orig) {
